@@ -1053,6 +1053,10 @@ pub fn gen_c17(cx: &mut Ctx) {
     for ns in [
         names(&["A", "a"]), names(&["X1", "b", "x1"]), names(&["Cdc20", "cdc20", "p53", "P53"]), names(&["É", "é"]), names(&["ß", "SS", "ss"]),
         names(&["x_1", "x_2"]), names(&["x_1", "y"]), names(&["p", "x_3", "x_4", "z"]), names(&["x_2", "x_1", "x_0"]), names(&["x_5", "y"]),
+        // names with white space at their edges (the text is trimmed for counting lines; the reader must
+        // still see it as written), and with quotes / backslashes
+        names(&[" a"]), names(&[" a", "b"]), names(&["\ta", "b"]), names(&["\u{a0}b"]), names(&["a ", "b"]), names(&["b", "z "]),
+        names(&["x", "x'"]), names(&["a\\b", "c"]),
         // names that differ only in leading / trailing punctuation, or are punctuation only
         names(&["x", "x_"]), names(&["_a", "a"]), names(&["n", "n-"]), names(&["_", "__"]), names(&["-a", "a", "a-", "a_"]), names(&["-", "--", "_-"]),
         names(&["x_0", "x_1", "x_10", "x_2", "x_3", "x_4", "x_5", "x_6", "x_7", "x_8", "x_9"]),
@@ -1090,6 +1094,10 @@ pub fn gen_c18(cx: &mut Ctx) {
     let mut sets = table_name_sets(cx.thorough);
     sets.push(names(&["averyveryverylongname", "x_10", "é"]));
     sets.push(names(&["B", "aa"]));
+    sets.push(names(&["x", "x'"]));
+    sets.push(names(&["a\"b", "c"]));
+    sets.push(names(&["a\\b"]));
+    sets.push(names(&["e\u{301}", "f"]));
     sets.push(names(&["alpha", "žár"]));
     sets.push(names(&["abcdef", "日本"]));
     sets.push(names(&["abcde", "éé"]));
